@@ -157,9 +157,14 @@ def generate(tier, seed, casedir, variant):
         dist["fwd_" + m["op"]] = dist.get("fwd_" + m["op"], 0) + 1
         nontrivial.add(("fwd", k))
     write_cases(casedir, "C01fwdsys", "R_C11", variant, fcases, chunk=60)
+    # vector Laplacian and advection of separable networks against the reverse-mode operators on the pointwise twin
+    try:
+        viol += c11.vec_ops_vs_twin(rng, 3 if tier == "quick" else 9)
+    except Exception as ex:
+        viol.append({"detail": f"vector operator comparison raised {type(ex).__name__}: {str(ex)[:300]}", "case": {"what": "vector operator"}})
     cases = cases + fcases
     return dict(meta=meta, oracle_violations=viol, evaluations=len(cases), distinct_nontrivial=len(nontrivial), samples=samples, distribution=dist,
-                rule="monomial basis of total degree <= 3 in d = 1..4 spatial variables with and without time (all of it in the thorough tier) for the Laplacian and the divergence, plus random integer polynomials of degree <= 4 for the four operators (scalar and vector outputs, extra unrelated parameters present; the advection operator called directly, with and without a time argument, and through the Navier-Stokes residual), at dyadic points; non-trivial = the operator value is non-zero; plus a trig+quadratic+Gaussian family with closed-form Laplacian (oracle only); plus the forward-mode Laplacian / divergence on random separable networks (1..3 space dimensions, with and without time, 1 / 2 / 3 points per axis)",
+                rule="monomial basis of total degree <= 3 in d = 1..4 spatial variables with and without time (all of it in the thorough tier) for the Laplacian and the divergence, plus random integer polynomials of degree <= 4 for the four operators (scalar and vector outputs, extra unrelated parameters present; the advection operator called directly, with and without a time argument, and through the Navier-Stokes residual), at dyadic points; non-trivial = the operator value is non-zero; plus a trig+quadratic+Gaussian family with closed-form Laplacian (oracle only); plus the forward-mode Laplacian / divergence on random separable networks (1..3 space dimensions, with and without time, 1 / 2 / 3 points per axis) and the separable vector Laplacian (given / default component count) and advection operator against their pointwise counterparts (oracle only)",
                 oracle_checks=len(cases) + (10 if tier == "quick" else 80), exhaustive=False)
 
 
@@ -175,6 +180,8 @@ def replay(rep, casedir, variant):
     c = rep["case"]
     if c.get("what") == "smooth":
         return dict(meta={}, oracle_violations=smooth_family_oracle(random.Random(0), 50), evaluations=50, distinct_nontrivial=50, rule="replay", samples=[c])
+    if c.get("what") in ("vector operator", "forward operator"):       # separable-network cases are regenerated from the seed of the run
+        return generate("quick", rep.get("seed", 0), casedir, variant)
     c = unjson(c)
     obs = call_op(c["op"], c["has_t"], c["d"], c["polys"], c["pt"], c["nus"])
     exp = expected(c["op"], c["has_t"], c["d"], c["polys"], c["pt"])
